@@ -594,8 +594,13 @@ func runC06(c *an.Ctx) {
 	// ---- R4: an upstream reply is accepted only when it matches this query (shared with C17-R4)
 	c.Floor("C06-R4", 2)
 	c.Borrow("C06-R4", runC17, func(o an.Obligation) bool {
-		return o.Rule == "C17-R4" && (strings.Contains(o.Key, ").Exchange") || strings.Contains(o.Key, "readValidMsg") || strings.Contains(o.Key, "validatePlainResponse"))
+		return o.Rule == "C17-R4" && (strings.Contains(o.Key, ").Exchange") || strings.Contains(o.Key, "readValidMsg") || strings.Contains(o.Key, "validatePlainResponse") ||
+			strings.Contains(o.Key, "processConn") || strings.Contains(o.Key, ").readMsg"))
 	})
+	// ---- R5: a response is handed back to the message pools only by the writers after which nothing reads it
+	// (a message recycled while a DoH/DoQ/DNSCrypt writer still packs it is another client's answer); shared with C07-R3
+	c.Floor("C06-R5", 2)
+	c.Borrow("C06-R5", runC07, func(o an.Obligation) bool { return o.Rule == "C07-R3" })
 	sharedCodecNames(c, "C06-R3", func(fn *ssa.Function) bool {
 		k := an.FnKey(fn)
 		return strings.HasPrefix(k, "dnsserver.") || strings.HasPrefix(k, "dnsserver/forward.") || strings.HasPrefix(k, "bindtodevice.")
